@@ -64,6 +64,15 @@ inductive PanicSite where
   /-- index / `unwrap` sites of `get_field_origins` and `check_ambiguous_field_origins`
   (mod.rs:494, 769, 781, 799, 805) and the model's loop fuel (line 0); proved unreachable. -/
   | internal (line : Nat)
+  /-- schema adapter: `as_…().expect(..)` / `unwrap_or_else(panic!)` on a vertex of the wrong kind. -/
+  | adapterConversion
+  /-- schema adapter: `unreachable!` on a type / property / edge name outside the meta-schema, and
+  every `resolve_coercion`. -/
+  | adapterUnreachable
+  /-- schema adapter: `expect("failed to convert ConstValue")` (adapter/mod.rs:357). -/
+  | adapterDefault
+  /-- schema adapter: `expect("input type was not part of this schema")` (adapter/mod.rs:487). -/
+  | adapterSubtypes
   deriving DecidableEq, Repr, Inhabited
 
 /-- Result of running a piece of the implementation: a value, or a Rust panic at a known site. -/
